@@ -45,7 +45,9 @@ def _in_known_region(site, text, stored):
     if region_active('c13_triple_quote_in_text') and _has_triple(stored):
         return True
     if region_active('c13_multiline_in_settings_or_raw_site') and docs.has_char(stored, '\n') and (
-            site in SETTINGS_NOTE_SITES or site in RAW_QUOTE_SITES or site in ('table_property', 'column_property')):
+            site in SETTINGS_NOTE_SITES or site in RAW_QUOTE_SITES or site in ('table_property', 'column_property', 'string_default')):
+        return True
+    if region_active('c13_unicode_blank_line') and SITES[site][2] and docs.has_unicode_blank_line(text):
         return True
     if region_active('c13_default_bool_word') and site == 'string_default' and _is_bool_word(stored):
         return True
